@@ -155,6 +155,8 @@ fn comps_after_root(p: Option<&Path>) -> String {
 /// Case `B <suffix hex>`: base URL `http://127.0.0.1:<port>/` + suffix (the server URL goes through
 ///   the same `url` parser), module `k.dll` / `a.pdb` / a fixed id, locate_symbols only.
 ///   Answer: `B|<reqs>`
+/// Case `R <code_file> <code id> <Location>`: a module without debug file / id; the listener answers the first request (the
+///   code-info lookup) with `302 Location: <Location>`; locate_symbols only.  Answer: `R|<reqs>`
 /// Request targets are hex, comma separated, in arrival order.
 fn url_probe() {
     use breakpad_symbols::{HttpSymbolSupplier, SymbolSupplier};
@@ -165,6 +167,9 @@ fn url_probe() {
     let listener = TcpListener::bind("127.0.0.1:0").expect("bind loopback");
     let port = listener.local_addr().unwrap().port();
     let (tx, rx) = mpsc::channel::<String>();
+    // `R` cases: the Location the server answers the NEXT request with (302), once
+    let redirect: std::sync::Arc<std::sync::Mutex<Option<String>>> = Default::default();
+    let redirect_srv = redirect.clone();
     std::thread::spawn(move || {
         for s in listener.incoming() {
             if let Ok(mut s) = s {
@@ -173,7 +178,14 @@ fn url_probe() {
                 let req = String::from_utf8_lossy(&buf[..n]).to_string();
                 let target = req.lines().next().unwrap_or("").split(' ').nth(1).unwrap_or("").to_string();
                 let _ = tx.send(target);
-                let _ = s.write_all(b"HTTP/1.1 404 Not Found\r\nContent-Length: 0\r\nConnection: close\r\n\r\n");
+                let loc = if n > 0 { redirect_srv.lock().unwrap().take() } else { None };
+                if let Some(loc) = loc {
+                    let _ = s.write_all(
+                        format!("HTTP/1.1 302 Found\r\nLocation: {}\r\nContent-Length: 0\r\nConnection: close\r\n\r\n", loc).as_bytes(),
+                    );
+                } else {
+                    let _ = s.write_all(b"HTTP/1.1 404 Not Found\r\nContent-Length: 0\r\nConnection: close\r\n\r\n");
+                }
             }
         }
     });
@@ -210,6 +222,18 @@ fn url_probe() {
             let supplier = mk(format!("http://127.0.0.1:{}/{}", port, suffix));
             let _ = rt.block_on(supplier.locate_symbols(&m));
             return format!("B|{}", drain(&rx));
+        }
+        if first == "R" {
+            // `R <code_file> <code id> <Location>`: no debug file / id; the code-info request is answered with a redirect
+            let cf = tok(t.str());
+            let cid = tok(t.str()).map(CodeId::new);
+            let loc = tok(t.str()).expect("location");
+            let m = SimpleModule::from_basic_info(None, None, cf, cid);
+            *redirect.lock().unwrap() = Some(loc);
+            let supplier = mk(format!("http://127.0.0.1:{}/root/", port));
+            let _ = rt.block_on(supplier.locate_symbols(&m));
+            *redirect.lock().unwrap() = None;
+            return format!("R|{}", drain(&rx));
         }
         let cf = tok(first);
         let df = tok(t.str());
